@@ -10,7 +10,7 @@ from mcv.gen import containers as C
 from mcv.gen import cue as Q
 from mcv.checks.c10 import parse_table
 
-ENCODINGS = ["raw", "raw2352", "mdx", "cue_raw", "cue_2352", "cue_subdir", "cue_cosmetic"]
+ENCODINGS = ["raw", "raw2352", "mdx", "cue_raw", "cue_2352", "cue_subdir", "cue_cosmetic", "mdx20"]
 
 
 def write_encodings(d, payload):
@@ -20,6 +20,9 @@ def write_encodings(d, payload):
                        ("a.bin", payload), ("b.bin", raw2352)):
         with open(os.path.join(d, name), "wb") as f:
             f.write(data)
+    # the same wrapper with version bytes 2.0 (the reader has never looked at them) and without anything behind the payload
+    with open(os.path.join(d, "y.mdx"), "wb") as f:
+        f.write(C.mdx(payload, descriptor=0, version=b"\x02\x00"))
     with open(os.path.join(d, "a.cue"), "w") as f:
         f.write(C.data_cue("a.bin", "MODE1/2048"))
     with open(os.path.join(d, "b.cue"), "w") as f:
@@ -37,7 +40,7 @@ def write_encodings(d, payload):
     with open(os.path.join(d, "d.cue"), "wb") as f:
         f.write(b'rem made by some tool\r\nTitle "disc"\r\nperformer "x"\r\nRem FILE "z.bin" BINARY\r\n  file "a.bin" binary  \r\n\r\n'
                 b'\ttrack 01 mode1/2048\r\n      flags dcp\r\n      Index 01 00:00:00  \r\n\r\n')
-    return {"cue_cosmetic": os.path.join(d, "d.cue"), "raw": os.path.join(d, "raw.img"), "raw2352": os.path.join(d, "raw2352.bin"), "mdx": os.path.join(d, "x.mdx"),
+    return {"mdx20": os.path.join(d, "y.mdx"), "cue_cosmetic": os.path.join(d, "d.cue"), "raw": os.path.join(d, "raw.img"), "raw2352": os.path.join(d, "raw2352.bin"), "mdx": os.path.join(d, "x.mdx"),
             "cue_raw": os.path.join(d, "a.cue"), "cue_2352": os.path.join(d, "b.cue"), "cue_subdir": os.path.join(d, "sub", "c.cue")}
 
 
@@ -154,7 +157,7 @@ class Check(CheckBase):
             "chains/window/header sweeps of C02 (quick: every 12th; odd cluster counts make cluster reads straddle 2048-byte "
             "user-data boundaries) x trailing bytes {0,1,2047,2048} (zero and non-zero), one small image with every trailing sector count 0..127 "
             "(thorough 0..511), truncated payloads (whole sectors dropped; the image ending inside the audio of its last sample; Roland images ending 1..2048 bytes before the end of their last cluster), x the encodings {raw, MODE1/2352, "
-            "MDX, cue->raw, cue->2352, cue in another directory naming its bin with a path, cue->raw written with lower/mixed case "
+            "MDX (version 2.1 with the descriptor behind the payload; version 2.0 without), cue->raw, cue->2352, cue in another directory naming its bin with a path, cue->raw written with lower/mixed case "
             "keywords, header and unknown lines, tabs, blank lines and CR LF} as real files: same image class, character-identical ls text at every node reachable "
             "through the printed names, identical exported trees (paths + bytes); cue dispatch: all combinations of "
             "AUDIO/MODE1/2352/MODE2/2352 modes over <=3 tracks; long sheets: n titled audio tracks (+ a data track last) for "
